@@ -37,6 +37,15 @@ pub fn find_tbl<T: AsRef<str>>(basedir: T) -> Result<Option<PathBuf>, Error> {
     find_file_in_basedir(basedir, "NewBDL_O.tbl")
 }
 
+/// Convierte un campo numérico. Los valores no finitos (nan, inf) son un error
+fn parse_num(field: &str) -> Result<f32, Error> {
+    let num: f32 = field.parse()?;
+    if !num.is_finite() {
+        bail!("Valor numérico no finito '{}'", field)
+    }
+    Ok(num)
+}
+
 /// Tipos de elementos definidos en archivo .tbl
 #[allow(clippy::upper_case_acronyms)]
 #[derive(Debug)]
@@ -111,13 +120,13 @@ impl FromStr for Element {
         }
         Ok(Element {
             name: data[0].to_owned(),
-            area: data[1].parse()?,
-            u: data[2].parse()?,
-            w_or_inf: data[3].parse()?,
-            g_winter: data[4].parse()?,
-            g_summer: data[5].parse()?,
-            ang_north: data[6].parse()?,
-            tilt: data[7].parse()?,
+            area: parse_num(data[1])?,
+            u: parse_num(data[2])?,
+            w_or_inf: parse_num(data[3])?,
+            g_winter: parse_num(data[4])?,
+            g_summer: parse_num(data[5])?,
+            ang_north: parse_num(data[6])?,
+            tilt: parse_num(data[7])?,
             type_: data[8].parse()?,
             id_surf: data[9].parse()?,
             id_space: data[10].parse()?,
@@ -152,8 +161,8 @@ impl FromStr for Space {
             name: data[0].to_owned(),
             id_space: data[1].parse()?,
             mult: data[2].parse()?,
-            area: data[3].parse()?,
-            qint: data[4].parse()?,
+            area: parse_num(data[3])?,
+            qint: parse_num(data[4])?,
         })
     }
 }
